@@ -15,6 +15,8 @@ import (
 	"strings"
 	"sync/atomic"
 	"time"
+
+	"github.com/johannesboyne/gofakes3/internal/verifhook"
 )
 
 // GoFakeS3 implements HTTP handlers for processing S3 requests and returning
@@ -495,6 +497,7 @@ func (g *GoFakeS3) getObject(
 
 	// Writes Content-Length, and Content-Range if applicable:
 	obj.Range.writeHeader(obj.Size, w)
+	verifhook.At("get.before-copy")
 
 	if _, err := io.Copy(w, obj.Contents); err != nil {
 		return err
@@ -1097,6 +1100,7 @@ func (g *GoFakeS3) ensureBucketExists(bucket string) error {
 	} else if !exists {
 		return ResourceError(ErrNoSuchBucket, bucket)
 	}
+	verifhook.At("ensure-bucket.after")
 	return nil
 }
 
